@@ -252,3 +252,142 @@ Example ex_run_dst :
   existsb is_fault (map dlab (snd r2)) = false /\ is_final (ds x2) = true /\
   result (ds x2) = Some false /\ forallb (fun n => dmem n (dd x2)) [0; 1; 2; 3; 4] = true.
 Proof. vm_compute. repeat split; reflexivity. Qed.
+
+(* ===== extension round, protocol builder: liveness / end-to-end statements of the system WITH
+   destination (Proofs/CopyImplDstLive.v) and the tie of the model's program order to the source ===== *)
+From Oras Require Import Generated.GC02 Model.CopyImplSrc Proofs.CopyImplSrc Proofs.CopyImplDstLive.
+
+(* with dst.Exists answered by the destination (no longer a free choice) the system still never
+   deadlocks: every reachable state in which the top-level syncutil.Go has not returned has an enabled
+   step that is not a fault / cancellation choice *)
+Theorem C02_no_deadlock_dst_protocol : forall succ K ext roots d0,
+  (forall n m, In m (succ n) -> m < n) ->
+  forall x, 1 <= K -> DReachable succ K ext roots d0 x -> is_final (ds x) = false ->
+  exists dl x', progress_label (dlab dl) = true /\ dstep succ x dl = Some x'.
+Proof. exact dno_deadlock. Qed.
+Print Assumptions C02_no_deadlock_dst_protocol.
+
+(* ... and every execution has at most bound(graph) steps *)
+Theorem C02_terminates_dst_protocol : forall succ K ext roots d0,
+  (forall n m, In m (succ n) -> m < n) -> forall N, (forall r, In r roots -> r < N) ->
+  forall ls x, drun succ (dinit K ext roots d0) ls = Some x -> length ls <= bound succ ext roots N.
+Proof. exact dterminates. Qed.
+Print Assumptions C02_terminates_dst_protocol.
+
+(* content enters the destination only through a push of the call (one that returns nil, or one that
+   stored and then failed) *)
+Theorem C02_dst_written_only_by_push_protocol : forall succ x dl x' n, dstep succ x dl = Some x' -> In n (dd x') ->
+  In n (dd x) \/
+  (exists t, (dl = DL (LPush t true) \/ dl = DPushFailStored t) /\ n = t_node (tasks (ds x) t)).
+Proof. exact dst_written_only_by_push. Qed.
+Print Assumptions C02_dst_written_only_by_push_protocol.
+
+(* one call on a closed destination, end to end: closed throughout, nothing lost; once the call has
+   returned: a fault or cancellation anywhere => error; no fault => nil and the closure of the roots stored *)
+Theorem C02_call_summary_protocol : forall succ K ext roots d0,
+  (forall n m, In m (succ n) -> m < n) ->
+  forall ls x, dclosed succ d0 -> drun succ (dinit K ext roots d0) ls = Some x ->
+  dclosed succ (dd x) /\
+  (forall n, In n d0 -> In n (dd x)) /\
+  (is_final (ds x) = true ->
+     (existsb is_fault (map dlab ls) = true -> result (ds x) = Some true) /\
+     (existsb is_fault (map dlab ls) = false -> result (ds x) = Some false /\
+        forall r n, In r roots -> dreach succ r n -> In n (dd x))).
+Proof. exact call_summary. Qed.
+Print Assumptions C02_call_summary_protocol.
+
+(* TIE TO THE SOURCE.  The program-counter order of the model (Model/CopyImplSrc.v: which Go calls each
+   pc stands for) equals the call sequences that the translator (kind callseq) re-reads from copy.go
+   (copyGraph incl. fn), internal/syncutil/limit.go (Go, LimitedRegion.Start / End) and extendedcopy.go
+   on every run: TryCommit, [defer close], Exists, FindSuccessors, region.End BEFORE the nested
+   syncutil.Go, the wait loop's TryCommit, region.Start, then the copy; Go = dispatch (LimitRegion,
+   Start, eg.Go), child (deferred End, fn), Wait, Cause; the outer closure = End, copyGraph, Start;
+   Start only acquires, End only releases. *)
+Theorem C02_source_order_protocol :
+  c02proto_calls_fn = fn_calls /\ c02proto_calls_go = go_calls /\ c02proto_calls_ext = ext_calls /\
+  c02proto_calls_start = start_calls /\ c02proto_calls_end = end_calls.
+Proof. exact source_order. Qed.
+Print Assumptions C02_source_order_protocol.
+
+(* THE LIMITER.  Model/CopyImplSem.v models golang.org/x/sync/semaphore.Weighted (v0.13.0) with unit
+   weights - FIFO waiter list, notifyWaiters, cancellation of a queued waiter, the give-back of a
+   waiter granted after its context was done - and is compared on every run with the real semaphore
+   driven by scripted Acquire / Release / cancel sequences (harness sem.go).  In every reachable state:
+   tokens out = held + handed to granted waiters, held + granted + free = size, never more than size
+   held, and NO WAITER IS QUEUED WHILE A PERMIT IS FREE (no lost wake-up) - the liveness assumption behind
+   "LStart / LDispatchAcq are enabled whenever free > 0" of the protocol model. *)
+From Oras Require Import Model.CopyImplSem Proofs.CopyImplSem.
+Theorem C04_semaphore_sound_protocol : forall n s, SReach n s ->
+  s_cur s = s_held s + length (s_granted s) /\ s_held s + length (s_granted s) + sfree s = n /\
+  s_held s <= n /\ (s_wait s <> [] -> sfree s = 0).
+Proof. exact sem_sound. Qed.
+Print Assumptions C04_semaphore_sound_protocol.
+
+(* the semaphore refines the counter abstraction of the protocol model: an Acquire is granted at once
+   only when a permit is free and takes exactly one; a blocked / failed Acquire and a cancelled waiter
+   change nothing; a Release (and the give-back of a cancelled granted waiter) frees one permit, which is
+   either free afterwards or already handed to the first waiter *)
+Theorem C04_semaphore_refines_counter_protocol : forall n s o s' r, SReach n s -> sstep s o = Some (s', r) ->
+  match o, r with
+  | SAcquire _ _, RGranted => 0 < sfree s /\ sfree s' = sfree s - 1
+  | SAcquire _ _, _ => sfree s' = sfree s
+  | SRelease, RDone woken => sfree s' + length woken = S (sfree s)
+  | SWake _ false, _ => sfree s' = sfree s
+  | SWake _ true, RDone woken => sfree s' + length woken = S (sfree s)
+  | SCancel _, RDone woken => woken = [] /\ sfree s' = sfree s
+  | _, _ => True
+  end.
+Proof. exact sem_refines_counter. Qed.
+Print Assumptions C04_semaphore_refines_counter_protocol.
+
+(* a concrete script (size 1): acquire, two blocked acquires, cancel the second, release wakes the first *)
+Example ex_sem :
+  match srun (ssize_init 1) [SAcquire 0 false; SAcquire 1 false; SAcquire 2 false; SCancel 2; SRelease; SWake 1 false] with
+  | Some s => s_held s = 1 /\ s_wait s = [] /\ s_cur s = 1 /\ sfree s = 0
+  | None => False
+  end.
+Proof. vm_compute. repeat split; reflexivity. Qed.
+
+(* FIFO hand-over: with waiters queued, a Release wakes exactly the first one; the semaphore stays full *)
+Theorem C04_semaphore_release_wakes_head_protocol : forall n s w rest s' r, SReach n s -> s_wait s = w :: rest ->
+  sstep s SRelease = Some (s', r) ->
+  r = RDone [w] /\ s_wait s' = rest /\ s_granted s' = s_granted s ++ [w] /\ sfree s' = 0.
+Proof. exact sem_release_wakes_head. Qed.
+Print Assumptions C04_semaphore_release_wakes_head_protocol.
+
+(* LimitedRegion (internal/syncutil/limit.go: the `ended` flag, Start = Acquire unless started, End =
+   Release unless ended) over the semaphore model (Model/CopyImplRegion.v).  `RReach n x`: x is reachable
+   from n free permits and all regions ended by any sequence of Start / End calls of any regions
+   (idempotent repetitions included), wake-ups of blocked Starts and cancellations. *)
+From Oras Require Import Model.CopyImplRegion Proofs.CopyImplRegion.
+(* End() of a started region always succeeds: the semaphore never panics "released more than held" *)
+Theorem C04_region_end_never_panics_protocol : forall n x w, RReach n x -> r_reg x w = RStarted ->
+  exists x', rstep x (REnd w) = Some x' /\ r_reg x' w = REnded.
+Proof. exact region_end_never_panics. Qed.
+Print Assumptions C04_region_end_never_panics_protocol.
+
+(* End on an ended region and Start on a started region do nothing *)
+Theorem C04_region_idempotent_protocol : forall x w,
+  (r_reg x w = REnded -> rstep x (REnd w) = Some x) /\
+  (forall d, r_reg x w = RStarted -> rstep x (RStart w d) = Some x).
+Proof. exact region_idempotent. Qed.
+Print Assumptions C04_region_idempotent_protocol.
+
+(* the permits held are exactly the started regions, and at most n regions are started at any time *)
+Theorem C04_region_permits_protocol : forall n x, RReach n x ->
+  exists l, NoDup l /\ (forall w, In w l <-> r_reg x w = RStarted) /\ length l = s_held (r_sem x) /\ length l <= n.
+Proof. exact region_permits. Qed.
+Print Assumptions C04_region_permits_protocol.
+
+(* K = 1: region 0 starts, region 1 blocks, End of 0 (twice: idempotent) wakes 1, which starts *)
+Example ex_region :
+  match rstep (rinit 1) (RStart 0 false) with
+  | Some x1 => match rstep x1 (RStart 1 false) with
+    | Some x2 => r_reg x2 1 = RPending /\ match rstep x2 (REnd 0) with
+      | Some x3 => rstep x3 (REnd 0) = Some x3 /\ match rstep x3 (RWake 1 false) with
+        | Some x4 => r_reg x4 1 = RStarted /\ r_reg x4 0 = REnded /\ s_held (r_sem x4) = 1
+        | None => False end
+      | None => False end
+    | None => False end
+  | None => False end.
+Proof. vm_compute. repeat split; reflexivity. Qed.
